@@ -394,6 +394,18 @@ def run(prop, tier):
                 runs["raw by fmt alias"] = impl_split(au, noext, cs, fmt="raw")
                 runs["raw by audio_format, conflicting fmt"] = impl_split(au, noext, cs, audio_format="raw", fmt="wav")
                 runs["BufferAudioSource"] = impl_split(au, aio.BufferAudioSource(d, rate, w, ch), cs)
+                # the five documented positional parameters of split() given positionally (function and method)
+                pp = cs["params"]
+                posargs = (pp["min_dur"], pp["max_dur"], pp["max_silence"], pp["drop_trailing_silence"], pp["strict_min_dur"])
+                rest_kw = dict(analysis_window=cs["aw"], energy_threshold=cs["eth"], use_channel=cs["uc"])
+                try:
+                    runs["split(input, min_dur, max_dur, max_silence, drop, strict) positionally"] = [0, enc_regions(list(au.split(d, *posargs, sampling_rate=rate, sample_width=w, channels=ch, **rest_kw)))]
+                except Exception as e:
+                    runs["split(input, min_dur, max_dur, max_silence, drop, strict) positionally"] = [1, exc_code(e)]
+                try:
+                    runs["region.split(min_dur, ...) positionally"] = [0, enc_regions(list(au.AudioRegion(d, rate, w, ch).split(*posargs, **rest_kw)))]
+                except Exception as e:
+                    runs["region.split(min_dur, ...) positionally"] = [1, exc_code(e)]
                 # a region describes itself: audio-parameter keywords given next to it (say, defaults meant for raw inputs) have no say
                 runs["AudioRegion beside contradicting audio-parameter keywords"] = impl_split(
                     au, au.AudioRegion(d, rate, w, ch), cs, dict(sampling_rate=rate * 2 + 1, sample_width=(2 if w != 2 else 4), channels=ch + 1))
